@@ -674,6 +674,71 @@ def run(ctx):
                        construct='%s: push/pop of self.%s' % (q_, attr))
     ctx.holds('R15h', l2m_, None, '%d push/pop pair(s) on converter state' % n_pp, construct='push/pop scan', trivial=True)
 
+    # ---- R15j: per path, the value opened in strict mode passed the containment test
+    ctx.rule('R15j', 'on every path of read_latex_file that reaches open() with the strict flag true, a test on the very value '
+                     'that is opened (other than a file-existence test) was passed: no path around the refusal -- a refusal '
+                     'that happens only the first time, only when logging, only for some spellings -- reaches the read', 1)
+    try:
+        ocs = symex.Walker(is_sink=lambda c_: call_name(c_) in OPENERS).run(fn)
+    except symex.TooManyPaths as e:
+        ocs = None
+        ctx.unknown('R15j', m, fn, str(e), construct='read_latex_file: paths to open()')
+    if ocs is not None:
+        badp, n_strict = None, 0
+        for cs in ocs:
+            atoms = [(a_, ap_) for t_, p_ in cs.conds for a_, ap_ in symex._atoms(t_, p_)]
+            if not any(unparse(a_) == p_strict and ap_ for a_, ap_ in atoms):
+                continue
+            n_strict += 1
+            opened = unparse(cs.sub.args[0]) if cs.sub.args else None
+            passed = [a_ for a_, ap_ in atoms if ap_ and opened is not None and opened in unparse(a_) and not (
+                isinstance(a_, ast.Call) and unparse(a_.func) in ('os.path.exists', 'os.path.isfile', 'os.path.lexists',
+                                                                  'os.path.isdir', 'os.access'))]
+            if not passed and badp is None:
+                badp = cs
+        ctx.decide('R15j', badp is None and n_strict > 0, m, badp.node if badp else fn,
+                   '%d path(s) to open() in strict mode, each through a passed test on the opened value' % n_strict,
+                   'read_latex_file reaches %s in strict mode on the path [%s], on which no containment test on that value was '
+                   'passed: the refusal can be walked around (a second request for the same outside name is served)'
+                   % (short(badp.sub, 40) if badp else 'open()', ' & '.join(badp.cond_src())[-200:] if badp else ''),
+                   construct='read_latex_file: paths to open()')
+
+    # ---- R15i: names inside are read, with or without the implicit extension
+    ctx.rule('R15i', 'the implicit extensions .tex and .latex are both tried, and on every path to such a completion the only '
+                     'tests are file-existence tests: whether a name is completed does not depend on how it is spelled (a '
+                     'dot in the name, an upper-case letter), so a name that resolves to a file inside the directory is read', 2)
+    comp = [a_ for a_ in iter_own(fn) if isinstance(a_, ast.Assign) and isinstance(a_.value, ast.BinOp)
+            and isinstance(a_.value.op, ast.Add) and isinstance(a_.value.right, ast.Constant)
+            and isinstance(a_.value.right.value, str) and a_.value.right.value.startswith('.')]
+    exts = sorted({a_.value.right.value for a_ in comp})
+    ctx.decide('R15i', '.tex' in exts and '.latex' in exts, m, comp[0] if comp else fn,
+               'completions tried: %s' % exts, 'read_latex_file completes a name with %s only: the implicit extensions .tex '
+               'and .latex are not both tried, a file inside the directory requested without its extension is not read' % exts,
+               construct='read_latex_file: implicit extensions')
+    try:
+        ccs = symex.Walker(is_sink=lambda n_: isinstance(n_.op, ast.Add) and isinstance(n_.right, ast.Constant)
+                           and n_.right.value in exts, sink_types=(ast.BinOp,)).run(fn) if comp else []
+    except symex.TooManyPaths:
+        ccs = []
+    seen_c = set()
+    for cs in ccs:
+        other = []
+        for t_, p_ in cs.conds:
+            for a_, ap_ in symex._atoms(t_, p_):
+                for leaf in _bool_leaves(a_):
+                    if isinstance(leaf, ast.Call) and unparse(leaf.func) in ('os.path.exists', 'os.path.isfile',
+                                                                            'os.path.lexists', 'exists', 'isfile'):
+                        continue
+                    other.append(('' if ap_ or leaf is not a_ else 'not ') + short(leaf, 60))
+        key_ = (unparse(cs.node), tuple(other))
+        if key_ in seen_c:
+            continue
+        seen_c.add(key_)
+        ctx.decide('R15i', not other, m, cs.node, 'completion under existence tests only',
+                   'the completion `%s` is tried only when %s: a requested name for which this is false (`notes.v2` for the '
+                   'file notes.v2.tex) is never completed, so a file that lies inside the input directory is not read'
+                   % (short(cs.node, 50), ' and '.join(other)), construct='read_latex_file: ' + short(cs.node, 50))
+
     return 'other', (
         'Decides, on the source of read_latex_file / read_input_file, the necessary structural '
         'conditions of strict-input containment: component-aware test, canonical value checked, '
@@ -721,3 +786,15 @@ def _check_canonical(ctx, m, fn, strict_if, check, a, b, p_dir):
                    'added after canonicalisation escapes the check'
                    % (what, var, short(last), '' if uncond else ', conditional'),
                    construct='canonical %s path: %s' % (what, short(last)))
+
+
+def _bool_leaves(e):
+    if isinstance(e, ast.BoolOp):
+        for v in e.values:
+            for x in _bool_leaves(v):
+                yield x
+    elif isinstance(e, ast.UnaryOp) and isinstance(e.op, ast.Not):
+        for x in _bool_leaves(e.operand):
+            yield x
+    else:
+        yield e
